@@ -293,7 +293,7 @@ func Run(r *mc.Run) {
 	var full []In
 	ups := append(gen.AllStrings(gen.Chars("01a~+.-:"), 2), auditToks...)
 	revs := append([]string{"", "0", "00", "1", "~", "a", "+"}, auditToks...)
-	epochs := []uint{0, 1, 2, 10, 1 << 31, 1 << 32, 1<<63 - 1}
+	epochs := []uint{0, 1, 2, 10, 1 << 31, 1 << 32, 1<<63 - 1, 1 << 63, 1<<63 + 1, ^uint(0)}
 	for _, v := range gen.AuditInts(0, 1<<62, 6) {
 		epochs = append(epochs, uint(v))
 	}
@@ -316,7 +316,7 @@ func Run(r *mc.Run) {
 	}
 	for _, via := range []string{"struct", "parse", "less"} {
 		via := via
-		r.Scenario("full-versions-"+via, map[string]interface{}{"epochs": "0 1 2 10 2^31 2^32 2^63-1", "upstream": "all |s|<=2 over 01a~+.-:", "revisions": revs, "versions": len(full)},
+		r.Scenario("full-versions-"+via, map[string]interface{}{"epochs": "0 1 2 10 2^31 2^32 2^63-1 2^63 2^63+1 2^64-1", "upstream": "all |s|<=2 over 01a~+.-:", "revisions": revs, "versions": len(full)},
 			len(full), func(i int, st *mc.Stats) bool {
 				for j := range full {
 					in := In{AE: full[i].AE, AV: full[i].AV, AR: full[i].AR, BE: full[j].AE, BV: full[j].AV, BR: full[j].AR, Via: via}
